@@ -150,6 +150,12 @@ impl UtpStreamReadHalf {
         let mut written = 0usize;
         let mut dispatcher_dead = false;
 
+        // No room to read into: don't wait for data (no waker would be registered, the caller
+        // would hang forever).
+        if bufs.iter().all(|b| b.is_empty()) {
+            return Poll::Ready(Ok(0));
+        }
+
         while let Some(current_buf) = bufs.first_mut() {
             if current_buf.is_empty() {
                 bufs = &mut bufs[1..];
